@@ -1,6 +1,6 @@
 """C12 — symmetry, rigid-motion invariance, scaling (structural clauses)."""
 from ..core.report import DOMAIN_D
-from ..rules import frame, degree, mink
+from ..rules import frame, degree, mink, roles
 from .common import e2
 
 
@@ -10,7 +10,8 @@ def run(idx, rep, tier):
         "applied to vectors of its source frame, sums/dots/crosses combine one frame, results of pose-taking functions are "
         "returned in the world frame (R-FRAMERET). Scaling is decided by dimensional homogeneity (engine E3, R-DEGREE: every "
         "sum/comparison combines equal length degrees; R-RETDEGREE: returned distances and points have degree 1). Argument "
-        "swap: the collider pair keeps its order through every call and support points are A-B (R-MINK). Equality of results "
+        "swap: the collider pair keeps its order through every call and support points are A-B (R-MINK); composite distance functions swap callee results back when they "
+        "pass the second primitive first (R-ROLE). Equality of results "
         "on concrete transformed scenes and swap symmetry of leaf formulas are NOT decided.")
     rep.assumptions = DOMAIN_D
     fr_rets = e2(idx)
@@ -21,3 +22,5 @@ def run(idx, rep, tier):
     dg = degree.r_degree(idx, rep, floor=150, face_arrays=degree.EPA_FACES)
     degree.r_return_degrees(idx, rep, dg)
     mink.r_mink(idx, rep, floor=30)
+    roles.r_role(idx, rep)
+    roles.r_roleagree(idx, rep)
